@@ -13,13 +13,35 @@ CLAIMS = {
         "technique": TECH,
     },
 }
+CLAIMS["C02"] = {
+    "level": "other",
+    "text": "For every reachable weight matrix with <= 4 ensembles and fully symbolic positive weights (all staircase patterns, all lock "
+            "subsets with an idle perfect matching, every comparison outcome between weights), and up to 6 (7 thorough) ensembles with "
+            "row-constant / unit weights, the solver shows each entry of inf_retis equals W_ij*perm(minor)/perm(W_idle) (a polynomial "
+            "identity against an independent Leibniz permanent), zero on busy rows/columns and where W is zero, rows and columns sum to "
+            "one, the repo's own assertions cannot fire, and quick_prob == permanent_prob == the ratio on row-constant blocks. "
+            "Row-rescaling invariance is a corollary of the identity holding for all positive weights. Bounded: larger systems outside.",
+    "design_ref": "DESIGN.md section 3 C02 (H02)",
+    "note": "exact real arithmetic stands for longdouble; staircase family only (holes excluded as find_blocks documents); random_prob "
+            "(blocks > 12) outside; np facade + z3 trusted",
+    "technique": TECH,
+}
+CLAIMS["C15"] = {
+    "level": "other",
+    "text": "For all segment pairs up to 4+4 frames (6+6 thorough), all integer limits / None / unequal limits, both overlap flags and "
+            "all real order sequences and sorted interface triples, the solver shows paste_paths, reverse, copy, +=, append and the "
+            "start/end/crossing classification agree with a list-level specification. Bounded by segment length.",
+    "design_ref": "DESIGN.md section 3 C15 (H15)",
+    "note": "finite real order parameters; System.copy is shallow by design, the property speaks about re-assigning fields; z3 trusted",
+    "technique": TECH,
+}
 PENDING = "check not built yet in this revision (see DESIGN.md for the plan); no claim is made"
 NOT_APPLICABLE = {
     "C01": "statistical convergence of a whole stochastic sampler: no bounded symbolic encoding; its algebraic obligations are decided under C02/C04/C09/C10/C11",
     "C08": "quantifies over crash positions in a trace of OS file-system effects and the outcome of TOML/path parsers on truncated trees: not symbolically executable with the installed tools (fault enumeration is a different technique family)",
     "C19": "every clause is a round trip through C-level text/binary codecs (str.format/float, struct, re, genfromtxt): not executable on symbolic data here",
 }
-for _p in ["C02", "C03", "C04", "C05", "C06", "C07", "C09", "C11", "C12", "C13", "C14", "C15", "C16", "C17", "C18", "C20"]:
+for _p in ["C03", "C04", "C05", "C06", "C07", "C09", "C11", "C12", "C13", "C14", "C16", "C17", "C18", "C20"]:
     if _p not in CLAIMS:
         NOT_APPLICABLE[_p] = PENDING
 NOTES = ("All checks: exit 0 held within the stated bounds; exit 1 + VIOLATION line only for a counterexample that was replayed "
